@@ -169,3 +169,29 @@ fn row_halving_mask_all_bytes() {
     let h = (b >> 1) & 0x77;
     assert!((h & 0x0f) == (b & 0x0f) / 2 && (h >> 4) == (b >> 4) / 2, "[C11.halve] (b >> 1) & 0x77 halves both nibbles of every byte");
 }
+
+
+// configs: nostd (the std constructor seeds itself from SystemTime + StdRng, which Kani cannot execute; the sizing
+// arithmetic is the same code and is also proved for all widths by Verus unit V-POW)
+#[kani::proof]
+#[kani::unwind(12)]
+fn sketch_new_small_sizes() {
+    let size: u64 = kani::any();
+    kani::assume(size <= 8);
+    kani::cover!(size == 1, "sketch of size 1");
+    kani::cover!(size == 0, "sketch of size 0");
+    match CountMinSketch::new(size) {
+        Ok(mut s) => {
+            let v = view(&s);
+            assert!(size >= 1 && v.width >= 2 && (v.width & (v.width - 1)) == 0 && v.width as u64 >= size, "[C05.ctor][C11.width] every accepted size gives a power-of-two number (>= 2, >= size) of counters per row");
+            let h: u64 = kani::any();
+            s.increment(h);
+            let e = s.estimate(h);
+            assert!(e == 1, "[C05.ops][C11.min] one increment of a fresh sketch is estimated as 1");
+            s.reset();
+            s.clear();
+            assert!(s.estimate(h) == 0, "[C11.clear] a cleared sketch estimates 0");
+        }
+        Err(_) => assert!(size == 0, "[C05.ctor] only size 0 is rejected"),
+    }
+}
